@@ -234,6 +234,37 @@ def recStep (m : Rec) : RecOp → Rec
 
 def recRun (m : Rec) (ops : List RecOp) : Rec := ops.foldl recStep m
 
+/-! ### the recorder's event loop (`eventLoop`)
+
+One goroutine owns the map.  Every recorded event re-arms the deferred save (`saveTimer.Reset`,
+`KM.Gen.recorderSaveDelayMillis` later the `<-saveTimer.C` case writes the file) and
+invalidates the snapshot cache `lastEvents`; a `RequestEventsChannel` query (the activity page)
+fills the cache; a restart of the daemon builds a new recorder from the file.  `since` is a ghost:
+`none` after a save (the file is the current history), `some t` after a start at time `t`. -/
+
+structure Loop where
+  m : Rec
+  file : File
+  armed : Bool          -- the save timer is running
+  cached : Bool         -- `lastEvents != nil`
+  since : Option Int
+
+inductive LoopOp
+  | record (u : String) (e : Event)   -- any of the five input channels
+  | query                              -- RequestEventsChannel
+  | tick                               -- the save timer fires (if it is running)
+  | restart (now : Int)                -- process exit and `newEventRecorder` over the same file
+
+def Loop.init : Loop := { m := Rec.empty, file := fun _ => none, armed := false, cached := true, since := none }
+
+def loopStep (s : Loop) : LoopOp → Loop
+  | .record u e => { s with m := record s.m u e, armed := true, cached := false }
+  | .query => { s with cached := true }
+  | .tick => if s.armed then { s with file := save s.m, armed := false, cached := true, since := none } else s
+  | .restart now => { m := load now s.file, file := s.file, armed := false, cached := true, since := some now }
+
+def loopRun (s : Loop) (ops : List LoopOp) : Loop := ops.foldl loopStep s
+
 def sortedDesc : List Event → Bool
   | [] => true
   | [_] => true
